@@ -138,7 +138,7 @@ def payload_writers(ctx, cfg, fs, rule):
         if not seen[fld]:
             raise Broken('no writer of Doc.%s found' % fld)
         for fn, where in sorted(seen[fld].items()):
-            ctx.ob(rule, 'doc-writers:%s<-%s' % (fld, fn.split('::')[-1]), fn in table, '%s writes Doc.%s: %s' % (fn.split('::')[-1], fld, table.get(fn, 'NOT a listed writer (text and token lengths are kept in step by write_str / write only)')), where=where, cfg=cfg)
+            ctx.ob(rule, 'doc-writers:%s<-%s' % (fld, fn.split('::')[-1]), fs.listed(fn, table), '%s writes Doc.%s: %s' % (fn.split('::')[-1], fld, table.get(fn, 'NOT a listed writer (text and token lengths are kept in step by write_str / write only)')), where=where, cfg=cfg)
     # write_str: the length recorded is the byte length of the very string appended
     b = ctx.look(fs.one(r'^buffer::Doc::write_str$'))
     ps = [c for c in b.calls() if c.is_(r'String::push_str$')]
